@@ -14,6 +14,7 @@ from pyab_experiment.data_structures.syntax_tree import (
 )
 from pyab_experiment.language.lexer import ExperimentLexer
 from pyab_experiment.sly import Parser
+from pyab_experiment.sly.yacc import YaccError
 
 
 class ExperimentParser(Parser):
@@ -34,6 +35,16 @@ class ExperimentParser(Parser):
         ("left", KW_AND),
         ("left", KW_NOT),
     )
+
+    def error(self, token):
+        """Abort on the first syntax error: no panic-mode recovery, a text is
+        either one well-formed experiment definition or it is rejected"""
+        if token is None:
+            raise YaccError("Syntax error: unexpected end of input")
+        raise YaccError(
+            f"Syntax error at line {getattr(token, 'lineno', 0)}, "
+            f"token={token.type} ({token.value!r})"
+        )
 
     @_("header_id LBRACE opt_header_salt opt_splitter conditional RBRACE")
     def header(self, p):
